@@ -61,8 +61,8 @@ Theorem C03_undo_do_every_pseudo_legal_move : forall (zt : zobrist) (s : rep) (m
 Proof. exact undo_do_legal. Qed.
 Print Assumptions C03_undo_do_every_pseudo_legal_move.
 
-(* C03_undo_do_partial: the theorems above do not speak about the piece lists and the two bitboard families.  The lists are covered at the end of this
-   file (restored as duplicate-free sets: swap-remove may reorder them); the bitboards are tied field by field by the correspondence (op walk). *)
+(* The theorems above speak about the scalars, the board, the key and the history.  The piece lists (restored as duplicate-free sets: swap-remove
+   may reorder them) and the two bitboard families (restored exactly) are covered at the end of this file. *)
 
 (* non-vacuity: the start position satisfies base_ok, and 1.e4 meets the hypotheses of C03_undo_do_normal *)
 Example C03_example :
@@ -94,7 +94,7 @@ Print Assumptions C03_undo_do_along_every_legal_game.
    comes back as a duplicate-free enumeration of the same squares: a permutation of what it was (swap-remove reorders; nothing is lost,
    duplicated or invented). *)
 From CV Require Import Engine.KeyScratch Engine.KeyScratchMove Engine.RepRefineLegal Engine.UndoInv.
-From Coq Require Import Permutation.
+From Coq Require Import Permutation Lia NArith.
 Theorem C03_undo_do_keeps_the_list_invariant :
   forall (zt : zobrist) (s : rep) (m : move), rep_ok s -> key_inv zt s -> pseudo_legal (rep_abs s) m = true ->
     piece_inv zt (undo_move zt (fst (do_move zt s (enc m))) (enc m) (snd (do_move zt s (enc m)))).
@@ -117,3 +117,23 @@ Proof.
   intros zt p0 ms m pc Hv Hl Hn Hm Hpc. destruct (valid_hyps p0 Hv) as [Hg [Hc Hf]]. exact (game_undo_lists zt p0 ms m pc Hg Hc Hf Hl Hn Hm Hpc).
 Qed.
 Print Assumptions C03_piece_lists_along_every_legal_game.
+
+(* ---- the two bitboard families ----
+   KeyScratch.piece_inv also says that bit i of entry k of the kind (colour) family is set exactly when square i holds a piece of kind (colour) k:
+   the bitboards are functions of the board.  The constructor establishes it, add / remove / move keep it (N.lor / N.lxor with the square
+   bits), hence do_move and undo_move keep it, and since undo after do restores the board it restores both families EXACTLY. *)
+Theorem C03_undo_do_restores_the_bitboards :
+  forall (zt : zobrist) (s : rep) (m : move), rep_ok s -> key_inv zt s -> pseudo_legal (rep_abs s) m = true ->
+    let s' := undo_move zt (fst (do_move zt s (enc m))) (enc m) (snd (do_move zt s (enc m))) in
+    r_kind_bb s' = r_kind_bb s /\ r_color_bb s' = r_color_bb s.
+Proof. exact undo_do_bitboards. Qed.
+Print Assumptions C03_undo_do_restores_the_bitboards.
+
+(* the bitboards of every state reached by legal play are what the board says *)
+Theorem C03_bitboards_are_functions_of_the_board :
+  forall (zt : zobrist) (s : rep) (k i : N), piece_inv zt s -> (k < 7)%N ->
+    N.testbit (nthd (r_kind_bb s) k 0) i = ((i <? 64) && negb (nthd (r_board s) i 0 =? 0) && (pc_kind (nthd (r_board s) i 0) =? k))%N.
+Proof.
+  intros zt s k i Hp Hk. destruct Hp as [_ [_ [_ [_ [_ [_ [_ [_ [_ [[_ K] _]]]]]]]]]]. apply K. lia.
+Qed.
+Print Assumptions C03_bitboards_are_functions_of_the_board.
